@@ -475,6 +475,187 @@ def run_histories(ctx, n):
         check_history(ctx, gen_history(ctx.rng))
 
 
+# ---------------------------------------------------------------- snapshots: both indexes carry a hash per directory
+#
+# The way a caller of compare() records a workspace is a configuration of the property too.  DVC snapshots the workspace with the
+# file hashes *and* a tree hash on every directory (what save() / build_tree record), and its targets are saved indexes whose
+# directories carry tree hashes as well - so a directory of the workspace can be "equal" to the target's as far as the hash goes.
+# A tree hash covers names and bytes only: an executable bit that was dropped, or an empty directory that was left behind, below
+# such a directory still has to be found.  The family checks a workspace out, lets it drift (quiet drifts that leave every byte
+# alone - exec bits, empty directories at any depth -, or edits / removals / strays / a file turned into a directory) and checks
+# it out again, several times, towards one saved target.
+
+
+def gen_snapshots(rng):
+    while True:
+        case = gen_case(rng)
+        tgt = split(case["target"])
+        if any(len(k) > 1 for k in tgt):
+            break
+    prior = split(case["prior"])
+    kindchg = any(any(k2[: len(k)] == k and k2 != k for k2 in tgt) for k in prior) or any(any(k2[: len(k)] == k and k2 != k for k2 in prior) for k in tgt)
+    case.update({"lazy": None, "lazy_missing": False, "missing": [], "own_storage": []})
+    if rng.random() < 0.3:
+        case.update({"prior": {}, "exec_prior": [], "empty_dirs": []})  # the first checkout starts from nothing
+        kindchg = False
+    case["delete"] = True if (kindchg or case["empty_dirs"]) else rng.random() < 0.8
+    nested = sorted(k for k in tgt if len(k) > 1)
+    ex = {tuple(k) for k in case["exec_target"]} | {k for k in nested if rng.random() < 0.5}
+    case["exec_target"] = sorted(list(k) for k in ex)
+    # how the two sides are recorded: tree hashes on the workspace's directories or file hashes only (md5(build(ws)));
+    # the target saved to the store from a pristine tree (directories with tree hashes) or assembled entry by entry
+    case["snapshot"] = {"ws_tree_hashes": rng.random() < 0.85, "target_saved": rng.random() < 0.85}
+    files = sorted(case["target"])
+    dirs = sorted({"/".join(k[:i]) for k in tgt for i in range(1, len(k))})
+    execs = sorted("/".join(k) for k in ex)
+    rounds = [{"drift": []}]
+    for _ in range(rng.randrange(1, 4)):
+        quiet = rng.random() < 0.6  # no byte of any file changes
+        ops = []
+        for _ in range(rng.randrange(1, 4)):
+            r = rng.random()
+            if r < 0.35 and execs:
+                ops.append(["noexec", rng.choice(execs)])
+            elif r < 0.45:
+                ops.append(["exec", rng.choice(files)])
+            elif r < 0.8 or quiet:
+                where = [rng.choice(dirs)] if rng.random() < 0.8 else []
+                ops.append(["mkdir", "/".join(where + ["left%d" % rng.randrange(2)] + (["over"] if rng.random() < 0.3 else []))])
+            elif r < 0.86:
+                ops.append(["rm", rng.choice(files)])
+            elif r < 0.92:
+                ops.append(["write", rng.choice(files), "~edited%d" % rng.randrange(100)])
+            elif r < 0.96 or not case["delete"]:
+                ops.append(["write", "/".join([rng.choice(dirs)] + ["stray%d" % rng.randrange(3)]), "stray"])
+            else:
+                ops.append(["todir", rng.choice(files)])  # a file becomes a directory with an empty directory inside
+        rounds.append({"drift": ops})
+    case["rounds"] = rounds
+    return case
+
+
+def drift_ws(ws, ops):
+    for op in ops:
+        p = os.path.join(ws, *op[1].split("/"))
+        try:
+            if op[0] in ("noexec", "exec"):
+                if os.path.isfile(p) and not os.path.islink(p) and os.stat(p).st_nlink == 1:  # (never through a link into the cache)
+                    m = os.stat(p).st_mode
+                    os.chmod(p, (m | 0o100) if op[0] == "exec" else (m & ~0o111))
+            elif op[0] == "mkdir":
+                os.makedirs(p, exist_ok=True)
+            elif op[0] == "todir":
+                if os.path.islink(p) or os.path.isfile(p):
+                    os.unlink(p)
+                os.makedirs(os.path.join(p, "nested"), exist_ok=True)
+            else:
+                perturb_ws(ws, [op])
+        except OSError:
+            pass  # something that is not a directory is in the way: the drift does not happen
+
+
+def ws_snapshot(ws, fs, tree_hashes):
+    """the workspace as an index: hashed files and, with `tree_hashes`, what save() records for every directory"""
+    from dvc_data.index import build
+    from dvc_data.index.save import build_tree, md5
+
+    idx = md5(build(ws, fs))
+    if tree_hashes:
+        for key in sorted((k for k, e in idx.iteritems() if e.meta and e.meta.isdir), key=len, reverse=True):
+            idx[key].meta, tree = build_tree(idx, key)
+            idx[key].hash_info = tree.hash_info
+    return idx
+
+
+def saved_target(case, root, fs, odb):
+    """the target the way a tracked tree becomes one: built from a pristine copy, hashed, saved to the store (tree hashes on directories)"""
+    import shutil
+
+    from dvc_data.index import ObjectStorage, build
+    from dvc_data.index.save import md5, save
+
+    src = os.path.join(root, "pristine")
+    gen.materialize(src, split(case["target"]), exec_keys={tuple(k) for k in case["exec_target"]})
+    idx = md5(build(src, fs))
+    save(idx, odb=odb)
+    idx.storage_map.add_cache(ObjectStorage((), odb))
+    shutil.rmtree(src)
+    return idx
+
+
+def run_snapshots(ctx, case):
+    from dvc_data.index.checkout import apply, compare
+
+    names = ("files_delete", "dirs_delete", "files_create", "dirs_create", "files_chmod")
+    fs = stores.fs_local()
+    root = ctx.mkdtemp()
+    ws = os.path.join(root, "ws")
+    tgt, snap = split(case["target"]), case["snapshot"]
+    gen.materialize(ws, split(case["prior"]), exec_keys={tuple(k) for k in case["exec_prior"]})
+    for d in case["empty_dirs"]:
+        os.makedirs(os.path.join(ws, *d), exist_ok=True)
+    odb = stores.make_odb(os.path.join(root, "odb"), local=case["local"], type=[case["link"]])
+    if snap["target_saved"]:
+        new = saved_target(case, root, fs, odb)
+    else:
+        for c in tgt.values():
+            stores.put_raw(odb.path, md5hex(c), c)
+        new = build_target(case, odb)
+
+    def actions(diff):
+        return {n: sorted("/".join(e.key) for e in getattr(diff, n)) for n in names}
+
+    out = []
+    for rnd in case["rounds"]:
+        drift_ws(ws, rnd["drift"])
+        before = walk_ws(ws)
+        errors = []
+
+        def onerror(src, dest, exc):
+            errors.append(os.path.relpath(dest, ws) if dest else None)
+
+        def f():
+            diff = compare(ws_snapshot(ws, fs, snap["ws_tree_hashes"]), new, delete=case["delete"])
+            acts = actions(diff)
+            apply(diff, ws, fs, update_meta=False, onerror=onerror, links=[case["link"]] if case["link"] != "copy" else None)
+            return acts
+
+        kind, acts = safe_call(f)
+        after = walk_ws(ws)
+        k2, second = safe_call(lambda: actions(compare(ws_snapshot(ws, fs, snap["ws_tree_hashes"]), new, delete=case["delete"])))
+        out.append(({"outcome": "ok" if kind == "ok" else acts, "actions": acts if kind == "ok" else None, "ws": after,
+                     "errors": sorted(set(e for e in errors if e)), "second": second if k2 == "ok" else {"err": second}}, before))
+    return out
+
+
+def check_snapshots(ctx, case):
+    obs = run_snapshots(ctx, case)
+    snap = case["snapshot"]
+    ops = {op[0] for r in case["rounds"] for op in r["drift"]}
+    ctx.case(case, nontrivial=snap["ws_tree_hashes"] and snap["target_saved"] and bool(ops & {"noexec", "mkdir"}))
+    ctx.count("snapshots")
+    ctx.count("snapshots ws_tree_hashes=%s target_saved=%s" % (snap["ws_tree_hashes"], snap["target_saved"]))
+    ctx.count("snapshots link=%s delete=%s" % (case["link"], case["delete"]))
+    for o in sorted(ops):
+        ctx.count("snapshots drift=%s" % o)
+    if any(r["drift"] and all(op[0] in ("noexec", "exec", "mkdir") for op in r["drift"]) for r in case["rounds"]):
+        ctx.count("snapshots round_with_no_byte_changed")
+    for i, (impl, before) in enumerate(obs):
+        where = {"round": i, "of": len(obs), "drift": case["rounds"][i]["drift"], "snapshot": snap, "actions": impl["actions"]}
+        prior = {tuple(p.split("/")) for p, n in before.items() if n[0] != "dir"}
+        if not case["delete"] and any(before.get("/".join(k), ["file"])[0] != "file" for k in split(case["target"])):
+            continue  # (not generated: a directory in the way of a target file cannot be replaced without deletion)
+        if not state_oracle(ctx, case, impl, before, prior, set(), where=where):
+            continue
+        ctx.oracle(not impl["errors"], case, {"why": "the error callback was called although all of the target's data is available",
+                                               "errors": impl["errors"], **where})
+
+
+def run_snapshot_histories(ctx, n):
+    for _ in range(n):
+        check_snapshots(ctx, gen_snapshots(ctx.rng))
+
+
 def run_cases(ctx, n):
     for _ in range(n):
         check(ctx, gen_case(ctx.rng))
@@ -489,21 +670,30 @@ def run(ctx):
         "histories (oracle only): 2-4 compare+apply rounds towards one target with a lazily loaded directory, on the same target index object "
         "or a new one per round, with the raising default or a non-raising error hook on the index; file objects and the directory object "
         "missing at first and arriving between rounds (or never), workspace edits (remove / rewrite / stray file) between rounds; every round "
-        "is judged against what is available in that round, with a second compare on the same and on a fresh index object"
+        "is judged against what is available in that round, with a second compare on the same and on a fresh index object. "
+        "snapshots (oracle only): 2-4 compare+apply rounds towards one target where the workspace index carries a tree hash on every directory "
+        "(as save()/DVC record directories; or file hashes only) and the target is an index saved to the store from a pristine tree (directories "
+        "with tree hashes; or assembled entry by entry), the workspace drifting between rounds: rounds in which no byte changes (exec bit dropped "
+        "or set, empty directories left at any depth) or edits / removals / stray files / a file turned into a directory; non-trivial = both sides "
+        "carry tree hashes and a quiet drift happens"
     )
     ctx.assumptions = ["'old' is the hashed workspace index md5(build(ws)) as DVC builds it", "link types other than copy are compared on actions and on the oracle only"]
     run_cases(ctx, ctx.n(140, 1500))
     run_histories(ctx, ctx.n(60, 600))
+    run_snapshot_histories(ctx, ctx.n(40, 400))
 
 
 def search(ctx):
     run_cases(ctx, 1200)
     run_histories(ctx, 400)
+    run_snapshot_histories(ctx, 300)
 
 
 def replay(ctx, payload):
     c = payload.get("case") or payload.get("diverging_case")
-    if "rounds" in c:
+    if "snapshot" in c:
+        check_snapshots(ctx, c)
+    elif "rounds" in c:
         check_history(ctx, c)
     else:
         check(ctx, c)
